@@ -33,7 +33,7 @@ ASSUMPTIONS = [
 PROBES = ["zero_size_block", "create_after_remove", "same_name_two_creations", "remove_by_name", "remove_by_md_variable", "remove_by_variable",
           "interface_variable", "face_or_node_dofs", "grids_passed_out_of_order", "additive_write", "subset_set_get", "rejected_duplicate_name",
           "rejected_unknown_variable", "rejected_dof_out_of_range", "rejected_both_grid_kinds", "rejected_no_grids", "rejected_bad_dof_type",
-          "layout_ge_6_blocks", "empty_system_after_removals"]
+          "layout_ge_6_blocks", "empty_system_after_removals", "rejected_remove_after_live_prefix"]
 
 NAMES = ["p", "q", "r", "s"]
 
@@ -281,7 +281,26 @@ def run_history_c05(ch, tr: Trace) -> None:
             if kind == 0:
                 if not removed_objs:
                     return
-                es.remove_variables([ch.choice(removed_objs)])
+                # a list whose later entry is unknown: the entries before it are live and are removed before the call
+                # is rejected (partial application is what the unchanged code does; the layout must stay a bijection)
+                prefix = [b for b in ch.shuffle(live) if ch.flag(1, 3)]
+                arg = [b["var"] for b in prefix] + [ch.choice(removed_objs)]
+                if prefix:
+                    tr.probe("rejected_remove_after_live_prefix")
+                try:
+                    es.remove_variables(arg)
+                finally:
+                    # the model follows the documented order of processing: entries before the unknown one are gone
+                    gone = [b for b in prefix if b["var"].id not in es._variables]
+                    if len(gone) not in (0, len(prefix)):
+                        raise Violation("rejected_remove_is_prefix_atomic", f"remove_variables with an unknown last entry removed {len(gone)} of {len(prefix)} preceding live variables")
+                    for b in gone:
+                        live.remove(b)
+                        removed_objs.append(b["var"])
+                        for loc in ("t", "i"):
+                            written.pop((b["var"].id, loc), None)
+                    if gone:
+                        ever_removed[0] = True
                 nm = "unknown_variable"
             elif kind == 1:
                 es.identify_dof(es.num_dofs() + ch.rng(0, 2))
